@@ -58,19 +58,21 @@ theorem head_tail_facts (lg : Nat → Nat) (mask : Nat → Nat → Nat) (p : Pro
     (h2 : Out.value g2 i2 v2 ∈ (run lg mask (step lg mask p op).1 ops).2)
     (ha : (run lg mask (step lg mask p op).1 ops).1.gens[g1]? = some a)
     (hb : (run lg mask (step lg mask p op).1 ops).1.gens[g2]? = some b) :
-    genValue lg mask { kind := a.kind, cfg := a.cfg, counter := i1 } = .ok v1 ∧
-    genValue lg mask { kind := b.kind, cfg := b.cfg, counter := i2 } = .ok v2 ∧
+    genValue lg mask { a with counter := i1 } = .ok v1 ∧
+    genValue lg mask { b with counter := i2 } = .ok v2 ∧
     (g1 = g2 → i1 < i2) := by
   obtain ⟨gen0, h0, hc, hv, gen1, e1, c1⟩ := step_value lg mask p op g1 i1 v1 h1
-  obtain ⟨gen0', e0', k0, cf0, _⟩ := step_ext lg mask p op g1 gen0 h0
-  obtain ⟨a', ea, ka, ca, _⟩ := run_ext lg mask ops _ g1 gen0' e0'
+  obtain ⟨gen0', e0', k0, cf0, st0, _⟩ := step_ext lg mask p op g1 gen0 h0
+  obtain ⟨a', ea, ka, ca, sa, _⟩ := run_ext lg mask ops _ g1 gen0' e0'
   rw [ha] at ea
   cases ea
   obtain ⟨b', eb, hvb⟩ := run_value_sound lg mask ops _ g2 i2 v2 h2
   rw [hb] at eb
   cases eb
   refine ⟨?_, hvb, ?_⟩
-  · rw [ka, k0, ca, cf0, ← hc]; exact hv
+  · have e : ({ a with counter := i1 } : Gen) = gen0 := by
+      cases gen0; cases a; simp_all
+    rw [e]; exact hv
   · intro e
     subst e
     have := run_value_ge lg mask ops _ g1 i2 v2 h2 gen1 e1
@@ -87,8 +89,8 @@ theorem run_numOK (lg : Nat → Nat) (mask : Nat → Nat → Nat) (ops : List Op
     subst e2
     subst hv
     obtain ⟨fa, fb, flt⟩ := head_tail_facts lg mask p op ops g1 i1 _ g2 i2 _ a b e1 ho' ha hb
-    have na := genValue_numeric lg mask { kind := a.kind, cfg := a.cfg, counter := i1 } r v1 ka fa
-    have nb := genValue_numeric lg mask { kind := b.kind, cfg := b.cfg, counter := i2 } r v1 kb fb
+    have na := genValue_numeric lg mask { a with counter := i1 } r v1 ka fa
+    have nb := genValue_numeric lg mask { b with counter := i2 } r v1 kb fb
     simp only at na nb
     by_cases e : g1 = g2
     · subst e
@@ -115,8 +117,8 @@ theorem run_alphaOK (lg : Nat → Nat) (mask : Nat → Nat → Nat) (ops : List 
     subst e2
     subst hv
     obtain ⟨fa, fb, flt⟩ := head_tail_facts lg mask p op ops g1 i1 _ g2 i2 _ a b e1 ho' ha hb
-    have na := genValue_alpha lg mask { kind := a.kind, cfg := a.cfg, counter := i1 } al mc r s1 ka fa
-    have nb := genValue_alpha lg mask { kind := b.kind, cfg := b.cfg, counter := i2 } al mc' r s1 kb fb
+    have na := genValue_alpha lg mask { a with counter := i1 } al mc r s1 ka fa
+    have nb := genValue_alpha lg mask { b with counter := i2 } al mc' r s1 kb fb
     simp only at na nb
     have ht := alphaValue_eq_tuple lg mask { num := a.cfg, alphabet := al, minChars := mc, randomize := r }
       { num := b.cfg, alphabet := al, minChars := mc', randomize := r } i1 i2 s1 wa wb rfl rfl hnd hlen na nb
